@@ -233,7 +233,7 @@ def foreign_events(ctx, W):
     n = 0
     for ci, alg in enumerate(ciphers):
         for ri, rk in enumerate(rkinds + ['pw', 'pw-simple', 'pw-salted', 'pw-nosession', 'multi']):
-            if ctx.quick and (ci + ri) % 3 != 0 and alg != 9:
+            if ctx.quick and (ci + ri) % 3 != 0 and alg != 9 and not (alg in (7, 8) and rk in ('cv25519', 'ecdh256')):
                 continue
             label, inner, content = inner_msgs[n % len(inner_msgs)]
             n += 1
@@ -262,8 +262,10 @@ def foreign_events(ctx, W):
                     kw['s2k'] = (3, 10, 16)
                 else:
                     kw['s2k'] = (3, [8, 2, 10, 9, 11, 1][ci % 6], [0, 96, 16][ri % 3])
-            blob, log = enc.encrypt_message(inner, alg, recipients=recips, passphrases=pws, fmt='old' if n % 5 == 0 else 'new', partial=(n % 4 == 0), **kw)
-            e = {'k': 'foreign', 'label': 'cipher=%d to=%s inner=%s' % (alg, rk, label), 'blob': octets(blob), 'log': log, 'recipients': rcs, 'inner': octets(inner),
+            zl = rk in ('cv25519', 'ecdh256', 'ecdh384') and alg in (9, 7)
+            p40 = rk in ('cv25519', 'ecdh256', 'ecdh384') and alg in (8, 11, 7)
+            blob, log = enc.encrypt_message(inner, alg, recipients=recips, passphrases=pws, fmt='old' if n % 5 == 0 else 'new', partial=(n % 4 == 0), zero_lead_shared=zl, pad40=p40, **kw)
+            e = {'k': 'foreign', 'label': 'cipher=%d to=%s inner=%s%s%s' % (alg, rk, label, ' (shared secret with a leading zero octet)' if zl else '', ' (session block padded to 40 octets)' if p40 else ''), 'blob': octets(blob), 'log': log, 'recipients': rcs, 'inner': octets(inner),
                  'expected': _sha(content)}
             try:
                 m = pgpy.PGPMessage.from_blob(blob)
